@@ -84,6 +84,25 @@ def splitKeys {V : Type} (l : Nat) : List (Key × V) → Outcome (List (Key × V
         | .err e => .err e
         | .panic p => .panic p
 
+/-- the `len(keys) > 1` part of encodeMap: label = common prefix of first and last key, partition, two refs.
+`recur` is the recursive call. -/
+def encodeFork {V : Type} (recur : List (Key × V) → Int → Outcome Cell) (kvs : List (Key × V)) (keySize : Int)
+    (first last : Key) : Outcome Cell :=
+  match commonLabel keySize first last with
+  | .ok label =>
+    match splitKeys label.length kvs with
+    | .ok (L, R) =>
+      match recur L (keySize - label.length - 1) with
+      | .ok l =>
+        match recur R (keySize - label.length - 1) with
+        | .ok r => mkCell (encLabelBits label keySize) [l, r]
+        | e => e
+      | e => e
+    | .err e => .err e
+    | .panic p => .panic p
+  | .err e => .err e
+  | .panic p => .panic p
+
 /-- Hashmap.encodeMap into a fresh cell. `fuel` bounds the recursion depth (every level shortens every key, so
 `length of the first key + 1` suffices; the theorems show it is never exhausted on well-formed input). -/
 def encodeMap {V : Type} (C : Codec V) : Nat → List (Key × V) → Int → Outcome Cell
@@ -98,20 +117,7 @@ def encodeMap {V : Type} (C : Codec V) : Nat → List (Key × V) → Int → Out
       | .err e => .err e
       | .panic p => .panic p
     | (k0, _) :: kv1 :: more =>
-      match commonLabel keySize k0 ((kv1 :: more).getLast (by simp)).1 with
-      | .ok label =>
-        match splitKeys label.length kvs with
-        | .ok (L, R) =>
-          match encodeMap C fuel L (keySize - label.length - 1) with
-          | .ok l =>
-            match encodeMap C fuel R (keySize - label.length - 1) with
-            | .ok r => mkCell (encLabelBits label keySize) [l, r]
-            | e => e
-          | e => e
-        | .err e => .err e
-        | .panic p => .panic p
-      | .err e => .err e
-      | .panic p => .panic p
+      encodeFork (encodeMap C fuel) kvs keySize k0 ((kv1 :: more).getLast (by simp)).1
 
 /-- ascending order of key bits (lexicographic; a proper prefix is smaller) -/
 def lexLt : Key → Key → Bool
